@@ -1,19 +1,18 @@
 #!/usr/bin/env python3
-"""Regenerate known_functions.json: the functions (module path -> qualified names) that exist in the package the
-rules were written against.  Run on the pinned tree.  vk/inline.py analyses any function NOT listed here as part of
-its callers (an extracted helper), see there."""
+"""Regenerate known_functions.json: the functions (module path -> qualified name -> statement-skeleton digest) of the
+package the rules were written against.  Run on the pinned tree.
+ * vk/inline.py analyses any function NOT listed here as part of its callers (an extracted helper);
+ * vk/report.py reports a shape rule's VIOLATED verdict about a listed function whose skeleton has changed as UNDECIDED."""
 import ast, json, os, sys
 HERE = os.path.dirname(os.path.dirname(os.path.abspath(__file__)))
 sys.path.insert(0, HERE)
+sys.dont_write_bytecode = True
+from vk.loader import Program
 from vk.inline import qualnames
-repo = os.environ.get("VK_REPO", "/repo")
+from vk import skeleton
+prog = Program()
 out = {}
-root = os.path.join(repo, "src", "votekit")
-for dp, dn, fns in os.walk(root):
-    for fn in sorted(fns):
-        if fn.endswith(".py"):
-            full = os.path.join(dp, fn)
-            rel = os.path.relpath(full, repo)
-            out[rel] = sorted(qualnames(ast.parse(open(full, encoding="utf-8").read())))
+for m in prog.modules.values():
+    out[m.path] = {q: skeleton.digest(fn) for q, (fn, _cls) in sorted(qualnames(m.tree).items())}
 json.dump(out, open(os.path.join(HERE, "known_functions.json"), "w"), indent=1, sort_keys=True)
 print(sum(len(v) for v in out.values()), "functions in", len(out), "modules")
